@@ -369,7 +369,7 @@ fn main() {
     sessions.push((vec![Call { sql: "SELECT ?, ?".into(), params: Some(vec![Py::Int(1)]) }], "probe-count-mismatch"));
     sessions.push((vec![Call { sql: "SELECT 1".into(), params: Some(vec![]) }, Call { sql: "SELECT 1".into(), params: None }], "probe-no-placeholders"));
     let n_probe = sessions.len();
-    for _ in 0..args.n(120, 3000) {
+    for _ in 0..args.n(400, 6000) {
         let mut r = rng.fork();
         let distinct = r.chance(1, 2);
         sessions.push((gen_session(&mut r, distinct), if distinct { "gen-distinct-texts" } else { "gen-repeating-texts" }));
@@ -466,7 +466,7 @@ fn main() {
         "SELECT \"?\", ?", "SELECT 1 -- ?\n, ?", "SELECT ?-?", "SELECT a?", "SELECT ? ?", "SELECT ??", "UPDATE t SET b=? WHERE a=?", "SELECT 'it''s ?', ?",
     ];
     let mut echo_calls: Vec<Call> = vec![];
-    for i in 0..args.n(900, 20000) {
+    for i in 0..args.n(2500, 40000) {
         let mut r = rng.fork();
         let sql = *r.pick(&templates);
         let k = sql.matches('?').count();
@@ -533,6 +533,8 @@ fn main() {
         // (calls, intended outcome per call, signature)
         (vec![Call { sql: "SELECT '?', ?".into(), params: Some(vec![Py::Int(2)]) }], vec!["rows [[[\"str\",\"?\"],[\"int\",\"2\"]]]"], "C30/placeholder-in-literal"),
         (vec![Call { sql: "SELECT 7-?".into(), params: Some(vec![Py::Int(-5)]) }], vec!["rows [[[\"int\",\"12\"]]]"], "C30/negative-after-minus"),
+        // `SELECT 'a' 'b'` (what separate tokens would give) returns a; the bound text is the single literal 'a''b'
+        (vec![Call { sql: "SELECT ?'b'".into(), params: Some(vec![Py::Str("a".into())]) }], vec!["rows [[[\"str\",\"a\"]]]"], "C30/string-before-quote"),
     ];
     let probe_real = run_python(&args.scratch, &Value::Array(probes.iter().map(|(c, _, _)| session_json(c)).collect()), "probe");
     for ((calls, want, sig), got) in probes.iter().zip(probe_real.iter()) {
